@@ -29,7 +29,11 @@ func checkExternal(v map[string]any, p tree.Path) error {
 	if !ok {
 		return nil
 	}
-	if !b.(bool) {
+	external, ok := b.(bool)
+	if !ok {
+		return fmt.Errorf("%s: \"external\" must be a boolean", p)
+	}
+	if !external {
 		return nil
 	}
 
